@@ -48,7 +48,7 @@ PLAN = {
     "socket-address": ("aB1:/[].", 4, 5),
     "socket-connection-address": ("aB1:/[].", 4, 5),
     "ipaddr-or-hostname": ("125.aF:_-g", 5, 6),
-    "timedelta": ("1.esw x-9d", 4, 5),
+    "timedelta": ("1.esw x-9dWH", 4, 5),
     "string": ("a $é", 3, 3),
     "null": ("a $é", 3, 3),
 }
